@@ -495,7 +495,10 @@ class CombinedCategoricalDissimilarity(AbstractDissimilarity):
         if cat_dissim is None:
             cat_dissim = AbsoluteCategoricalDissimilarity()
 
-        cat_dissim.delta_empty = delta_empty
+        if cat_dissim.delta_empty != delta_empty:
+            cat_dissim.delta_empty = delta_empty
+            # the component's compiled kernel captured its former delta_empty
+            cat_dissim.d_mat = cat_dissim.compile_d_mat()
         self.positional_dissim: AbstractDissimilarity = pos_dissim
         self.categorical_dissim: CategoricalDissimilarity = cat_dissim
         self.alpha = alpha
